@@ -101,7 +101,7 @@ def check_program(ctx, name, prog, vm='mbuff', helpers=(), props=('C03',), fixed
     if r.get('status') != 'ok':
         pr.out['errors'].append(f'{name}: jit_compile failed: {r.get("status")} {r.get("msg")}'); return cands
     code = bytes.fromhex(r['code'])
-    X = x86sym.X86(code, ctx.timeout_ms); X.hcall = S.hcall; X.max_steps = 400000
+    X = x86sym.X86(code, ctx.timeout_ms); X.hcall = S.hcall; X.max_steps = 30000
     st0, X0 = entry_x86(S, vm, fixed)
     rsp0 = X0['rsp']; X.rsp0 = rsp0
     # relation between the two stacks: the interpreter's 512-byte stack is the area the prologue reserves below RBP
